@@ -116,13 +116,13 @@ def install2(R):
 
 def install_meta(R):
     R.prop_meta["C13"] = dict(
-        bounded_in_quick="missing-data discovery on the real code and the real xarray against an independent numpy oracle: replay/C13.py (252 datasets: 1-4 parameter "
-                         "dimensions, 1-3 variables with and without an internal dimension, whole-cell / per-variable / partial-cell null patterns and infinities, "
-                         "numeric and string coordinates, isnull and isfinite; find_missing_cases in grid order without duplicates, parse_into_cases with absent "
-                         "coordinates) and the find -> harvest -> find loop",
-        not_decided=["find_missing_cases: the nested generator is evaluated eagerly (it is consumed at once by tuple()); proved: the reported tuples are exactly the "
-                     "elements of the product of the coordinate values at which is_case_missing holds (soundness and completeness); the filtered comprehension "
-                     "that selects the non-ignored dimensions, grid ORDER and absence of duplicates are decided by the bounded replay only",
+        bounded_in_quick="missing-data discovery on the real code and the real xarray against an independent numpy oracle: replay/C13.py (about 320 datasets: 1-4 parameter "
+                         "dimensions, 1-3 variables with and without an internal dimension, whole-cell / per-variable / partial-cell null patterns, infinities "
+                         "mixed with NaN and infinities only, numeric and string coordinates, isnull and isfinite, progress bar on and off; find_missing_cases in "
+                         "grid order without duplicates, parse_into_cases with absent coordinates) and the find -> harvest -> find loop",
+        not_decided=["find_missing_cases: the nested generator is evaluated eagerly (it is consumed at once by tuple()); proved over the arguments and the result: "
+                     "the returned names are exactly the non-ignored dimensions, the reported tuples are exactly the elements of the product of their coordinate "
+                     "values at which is_case_missing holds (soundness and completeness); grid ORDER and absence of duplicates are decided by the bounded replay only",
                      "that xarray's sel / isnull / all / to_array / item compute 'every variable entirely null at the location' is the library's semantics: "
                      "is_case_missing is verified against named, assumed contracts of those calls (which calls, on what, combined how, and the two except paths)",
                      "order of parse_into_cases' result (positions) - the contract proves the set of locations (soundness and completeness), the replay the order"],
